@@ -2,6 +2,7 @@
 from facts import AnalysisBroken
 from model import (dstr, strip, fact_holds, mentions_field, mentions_call, mentions_var,
                    mentions_enum, const_value, walk)
+from props.scan_common import check_refresh_validations, check_outputs_statted
 from rules import (guarded, calls_to, field_writes, who_may_call, must_pass, dominated_by,
                    full_range, loops_over, every_iteration_passes, basename, error_discipline,
                    origins, reject_if, canon_before_intern, skip_conditions_exact, is_var,
@@ -325,7 +326,9 @@ def run(ctx):
                       'Plan::want_.end()' in dstr(a), True)],
                     'an edge with new dyndep info is left out of the walk only if its outputs are ready '
                     'or it is not in the plan', 'DyndepsLoaded:extra-skip')
-    ctx.floor('C11.O1', 9)
+    check_refresh_validations(ctx, 'C11.O1', prog)
+    check_outputs_statted(ctx, 'C11.O1', prog)
+    ctx.floor('C11.O1', 11)
 
     # ---- CN ---------------------------------------------------------------------------------------------
     R('C11.CN', 'CN', 'every path parsed from a dyndep file is canonicalised before it becomes a node identity')
